@@ -354,7 +354,34 @@ def check_tables(rep, prog, m):
         if isinstance(n, ast.Assign) and isinstance(n.targets[0], ast.Name) and n.targets[0].id == 'folded' and isinstance(n.value, ast.Compare):
             flag = n.value
     okr = sent == {'folded', 'unfolded'} and flag is not None and isinstance(flag.ops[0], ast.Eq) and str_consts(flag) == ['folded']
-    rep.ob('R-TPL', 'from_file folding token', bool(okr), 'sentinel tokens %s; folded = %s' % (sorted(sent) if sent else None, ast.unparse(flag) if flag is not None else None),
+    detr = 'sentinel tokens %s; folded = %s' % (sorted(sent) if sent else None, ast.unparse(flag) if flag is not None else None)
+    # what reaches the constructor (role flow, sa/roles.py): used when the statements are not written the way the rule above follows
+    from sa import roles as RF
+
+    def reader_source(e, ev):
+        if isinstance(e, ast.Compare) and len(e.ops) == 1 and isinstance(e.comparators[0], ast.Constant) and isinstance(e.comparators[0].value, str) and isinstance(e.ops[0], (ast.Eq, ast.NotEq)):
+            return {'token %s %s' % ('==' if isinstance(e.ops[0], ast.Eq) else '!=', e.comparators[0].value)}
+        if isinstance(e, ast.Constant) and (e.value is None or isinstance(e.value, bool)):
+            return {repr(e.value)}
+        if isinstance(e, ast.Subscript) and isinstance(e.value, ast.Call) and isinstance(e.value.func, ast.Attribute) and e.value.func.attr == 'split' and str_consts(e.value) == ['"']:
+            return {'quoted fields' if isinstance(e.slice, ast.Slice) and ast.unparse(e.slice) == '1::2' else 'fields [%s] of the split at quotes' % ast.unparse(e.slice)}
+        if isinstance(e, ast.Call) and isinstance(e.func, ast.Attribute) and e.func.attr == 'split' and not e.args and not e.keywords:
+            return {'whitespace-separated fields'}
+        return None
+    rfr = RF.RoleFlow(fr, reader_source).run()
+    r_folded = rfr.callargs.get(('Spectrum', 'data_folded'))
+    r_labels = rfr.callargs.get(('Spectrum', 'pop_ids'))
+    roles_folded = set(RF.flat(r_folded)) if r_folded is not None else None
+    roles_labels = set(RF.flat(r_labels)) if r_labels is not None else None
+    if not okr and flag is None and roles_folded is not None:
+        good = [{'token == folded', 'False'}, {'token != unfolded', 'False'}]
+        if sent == {'folded', 'unfolded'} and roles_folded in good:
+            okr, detr = True, 'sentinel tokens %s; the folding flag handed to the constructor is made of %s' % (sorted(sent), sorted(roles_folded))
+        elif roles_folded and not any(roles_folded <= g_ for g_ in good):
+            detr = 'the folding flag handed to the constructor is made of %s' % sorted(roles_folded)
+        else:
+            detr = 'folding flag not found in the form the rule follows (%s)' % sorted(roles_folded)
+    rep.ob('R-TPL', 'from_file folding token', bool(okr), detr,
            rel, fr.lineno, what="reads ints up to 'folded'/'unfolded'; folded iff token == 'folded'")
     old = [n for n in own_nodes(fr) if isinstance(n, ast.If) and {'folded', 'unfolded'} <= set(str_consts(n.test)) and n.orelse and not isinstance(getattr(n, '_parent', None), (ast.For, ast.While))]
 
@@ -377,7 +404,16 @@ def check_tables(rep, prog, m):
         neg = ('not in' in tt or 'isdisjoint' in tt) and not tt.startswith('not ')
         br = plain_assignments(old[0].body if neg else old[0].orelse)
         okold = br.get('folded') == 'False' and br.get('pop_ids') == 'None'
-    rep.ob('R-TPL', 'from_file pre-1.3 header', okold, 'header without folding token: folded=False, pop_ids=None' + ('' if old else ': the test for the folding token was not found'), rel,
+    detold = 'header without folding token: folded=False, pop_ids=None' + ('' if old else ': the test for the folding token was not found')
+    if not okold and roles_folded is not None and roles_labels is not None:
+        # by what reaches the constructor: besides the values read from the header, the constants False (folding) and None (labels)
+        if 'False' in roles_folded and 'None' in roles_labels and 'True' not in roles_folded:
+            okold, detold = True, 'a header without folding token gives folded=False and pop_ids=None (constants that reach the constructor: %s / %s)' % (sorted(roles_folded), sorted(roles_labels))
+        elif 'True' in roles_folded:
+            detold = 'a constant True reaches the folding flag of the constructor'
+        else:
+            detold = 'pre-1.3 branch not found in the form the rule follows (%s / %s)' % (sorted(roles_folded), sorted(roles_labels))
+    rep.ob('R-TPL', 'from_file pre-1.3 header', okold, detold, rel,
            old[0].lineno if old else fr.lineno, what='pre-1.3 header handled')
     # labels: written quoted, parsed by splitting on the quote character
     lab = [ev for (k, ev, g, st) in events if k == 'write' and isinstance(ev, ast.BinOp) and isinstance(ev.op, ast.Mod)
@@ -393,7 +429,15 @@ def check_tables(rep, prog, m):
         v = pr[0].value
         okp = isinstance(v.value, ast.Call) and _last(dotted(v.value.func)) == 'split' and str_consts(v.value) == ['"'] \
             and isinstance(v.slice, ast.Slice) and ast.unparse(v.slice) == '1::2' and ast.unparse(v.value.func.value) == 'line'
-    rep.ob('R-TPL', 'from_file labels', okp, 'labels parsed by %s' % (ast.unparse(pr[0].value) if pr else None), rel, pr[0].lineno if pr else fr.lineno,
+    detp = 'labels parsed by %s' % (ast.unparse(pr[0].value) if pr else None)
+    if not okp and not pr and roles_labels is not None:
+        if roles_labels == {'quoted fields', 'None'}:
+            okp, detp = True, 'the labels handed to the constructor are the odd fields of the header split at the quote character (or None)'
+        elif any(r_.startswith('fields [') or r_ == 'whitespace-separated fields' for r_ in roles_labels):
+            detp = 'labels are made of %s (a label that contains a space is cut)' % sorted(roles_labels)
+        else:
+            detp = 'label parsing not found in the form the rule follows (%s)' % sorted(roles_labels)
+    rep.ob('R-TPL', 'from_file labels', okp, detp, rel, pr[0].lineno if pr else fr.lineno,
            what='labels = odd fields of the header split on the quote character (spaces allowed inside labels)')
     # line order: header newline, then data savetxt, then mask savetxt under foldmaskinfo
     seen_lines = set()
@@ -576,7 +620,19 @@ def check_array_io(rep, prog):
     rep.ob('R-TPL', 'array_from_file data', okr, ast.unparse(rd[0]) if rd else 'no fromfile', m.rel, rd[0].lineno if rd else r.lineno,
            what='reads prod(shape) space separated values')
     sh = [n for n in own_nodes(r) if isinstance(n, ast.Assign) and ast.unparse(n.targets[0]) == 'shape']
-    oksh = bool(sh) and 'int(' in ast.unparse(sh[0].value) and 'line.split()' in ast.unparse(sh[0].value)
+    def to_int(v):
+        """the value converts the fields of the split line to integers: int(x) per element, map(int, ...), dtype=int"""
+        for c in ast.walk(v):
+            if isinstance(c, ast.Call):
+                f_ = dotted(c.func) or ''
+                if f_ == 'int' and c.args:
+                    return True
+                if f_ == 'map' and c.args and isinstance(c.args[0], ast.Name) and c.args[0].id == 'int':
+                    return True
+                if any(k.arg == 'dtype' and ast.unparse(k.value) in ('int', 'numpy.int64', 'numpy.int_', 'numpy.intp') for k in c.keywords):
+                    return True
+        return False
+    oksh = bool(sh) and to_int(sh[0].value) and '.split()' in ast.unparse(sh[0].value)
     rep.ob('R-TPL', 'array_from_file shape', oksh, ast.unparse(sh[0]) if sh else 'shape not parsed', m.rel, sh[0].lineno if sh else r.lineno, what='shape parsed as integers')
 
 
